@@ -17,6 +17,7 @@ use std::sync::Arc;
 use std::time::Duration;
 
 use egg::{Id, Language};
+use futures::FutureExt;
 use futures::stream::{BoxStream, StreamExt};
 use futures_async_stream::try_stream;
 use itertools::Itertools;
@@ -543,7 +544,21 @@ impl<S: Storage> Builder<S> {
             .name(&format!("{id}.{name}"))
             .spawn(
                 async move {
-                    while let Some(item) = stream.next().await {
+                    loop {
+                        // A panic inside an operator must fail the statement. Letting the task die
+                        // closes the channel, which consumers cannot tell from a normal end of stream:
+                        // the statement would return Ok with rows missing.
+                        let item = match std::panic::AssertUnwindSafe(stream.next())
+                            .catch_unwind()
+                            .await
+                        {
+                            Ok(Some(item)) => item,
+                            Ok(None) => break,
+                            Err(_) => {
+                                let _ = tx.broadcast(Err(ExecutorError::panicked())).await;
+                                return;
+                            }
+                        };
                         if let Ok(chunk) = &item {
                             output_row_counter.inc(chunk.cardinality() as _);
                         }
